@@ -277,6 +277,55 @@ class SymBytes(object):
                 return i
         raise ValueError("subsection not found")
 
+    # strip family: exact bytes/bytearray semantics; one fork per examined
+    # end byte (is it in the strip set?), so the result length is concrete
+    _WS = b" \t\n\r\x0b\x0c"
+
+    def _strip_set(self, chars):
+        if chars is None:
+            return list(self._WS)
+        it = _items_of(chars)
+        if it is None:
+            raise TypeError("a bytes-like object is required, not '%s'"
+                            % _type(chars).__name__)
+        if any(_is_sym(c) for c in it):
+            raise Unsupported("strip with symbolic strip set")
+        return sorted(set(it))
+
+    @staticmethod
+    def _member(x, cs):
+        if not _is_sym(x):
+            return x in cs
+        cond = False
+        for c in cs:
+            r = (x == c)
+            if r is True:
+                return True
+            if r is not False:
+                cond = r if cond is False else (cond | r)
+        return bool(cond)
+
+    def _strip(self, chars, left, right):
+        cs = self._strip_set(chars)
+        items = self.items
+        lo, hi = 0, len(items)
+        if left:
+            while lo < hi and self._member(items[lo], cs):
+                lo += 1
+        if right:
+            while hi > lo and self._member(items[hi - 1], cs):
+                hi -= 1
+        return _wrap(list(items[lo:hi]), self.mutable)
+
+    def strip(self, chars=None):
+        return self._strip(chars, True, True)
+
+    def lstrip(self, chars=None):
+        return self._strip(chars, True, False)
+
+    def rstrip(self, chars=None):
+        return self._strip(chars, False, True)
+
 
 def sx_bytes(*args):
     if not args:
